@@ -425,7 +425,7 @@ impl Schema {
         let mut fields = vec![];
         for field in self.fields.iter() {
             if let Some(other_field) = other.top_level_field(&field.name) {
-                if field.data_type().is_struct() {
+                if field.data_type().is_nested() {
                     if let Some(f) = field.exclude(other_field) {
                         fields.push(f)
                     }
@@ -1759,6 +1759,30 @@ mod tests {
         )]);
         let nested = Schema::try_from(&nested).unwrap();
         assert!(nested.project(&["`a.b`"]).is_err());
+    }
+
+    #[test]
+    fn test_exclude_top_level_list_of_struct() {
+        let item = ArrowField::new(
+            "item",
+            ArrowDataType::Struct(ArrowFields::from(vec![
+                ArrowField::new("x", ArrowDataType::Int32, true),
+                ArrowField::new("y", ArrowDataType::Int32, true),
+            ])),
+            true,
+        );
+        let arrow_schema = ArrowSchema::new(vec![ArrowField::new(
+            "l",
+            ArrowDataType::List(Arc::new(item)),
+            true,
+        )]);
+        let mut schema = Schema::try_from(&arrow_schema).unwrap();
+        schema.set_field_id(None);
+        // l(0) -> item(1) -> {x(2), y(3)}
+        let only_x = schema.project_by_ids(&[2], false);
+        let rest = schema.exclude(&only_x).unwrap();
+        assert_eq!(rest.field_ids(), vec![0, 1, 3]);
+        assert!(schema.exclude(&schema).unwrap().fields.is_empty());
     }
 
     #[test]
